@@ -709,6 +709,32 @@ func nonEscaping(v ssa.Value, depth int) bool {
 	return true
 }
 
+// byteArrayBuffer: new [N]byte whose address is only sliced (the compiled form of make([]byte, N) for constant N)
+func byteArrayBuffer(a *ssa.Alloc) (int64, bool) {
+	et := elemOf(a.Type())
+	if et == nil || isTypeParam(et) {
+		return 0, false
+	}
+	arr, ok := under(et).(*types.Array)
+	if !ok || a.Referrers() == nil {
+		return 0, false
+	}
+	if b, isb := under(arr.Elem()).(*types.Basic); !isb || b.Kind() != types.Uint8 {
+		return 0, false
+	}
+	n := 0
+	for _, r := range *a.Referrers() {
+		switch r.(type) {
+		case *ssa.Slice:
+			n++
+		case *ssa.DebugRef:
+		default:
+			return 0, false
+		}
+	}
+	return arr.Len(), n > 0
+}
+
 // arrayLocal: a local array (typically the backing store of a variadic argument list) whose address is only
 // used for constant-index element access and for slicing
 func arrayLocal(a *ssa.Alloc) (*types.Array, bool) {
